@@ -17,13 +17,17 @@ NA = {
  "C17": "Keyset derivation is a deterministic function of (keyset, salt); it reads no RNG, clock or I/O.",
 }
 
-PENDING = {k: "claimed in DESIGN.md; its simulation world is still being built in this session (entry is removed when the check is registered)" for k in ["C05","C09","C11","C14","C18","C19","C20"]}
+PENDING = {k: "claimed in DESIGN.md; its simulation world is still being built in this session (entry is removed when the check is registered)" for k in ["C05","C09","C14","C18","C19","C20"]}
 
 CHECKS = {
  "C07": dict(engine="stream", design="§3 C07",
    technique="deterministic simulation: seeded I/O-fault injection (failing/short-reading devices, torn/cut/reordered stored bytes) over drawn write/read histories, reference-codec oracle, rapid-minimised replay",
    text="Seeded exploration of streaming-AEAD executions: real Tink writer and reader run between a simulated io.Writer device, a stored-bytes medium and a short-reading/failing io.Reader source; every run draws a key configuration, a plaintext length on a segment boundary class, write/read call histories and one fault family (persistent writer/reader error at a format-aware offset, cut at every segment/flush boundary, drop/dup/swap/splice of segments, appended bytes, bit flips, other associated data/key). Oracles: exact plaintext then sticky io.EOF; never a clean EOF on a manipulated stream and only plaintext prefixes before the error; a fired device error always surfaces; independent reference codec decodes Tink's bytes and Tink decodes the reference's. Sampling, not proof.",
    note="Trusts the harness's reference codec (cross-checked both ways every fault-free run), rapid's shrinker and the Go 1.26.8 toolchain; plaintext lengths up to 40 segments; injected errors are persistent sentinels."),
+ "C11": dict(engine="manager", design="§3 C11",
+   technique="deterministic simulation: seeded operation histories against a reference keyset model, key-ID collisions scripted through the RNG seam, rapid-minimised replay",
+   text="Seeded exploration of keyset.Manager operation histories (up to 60 ops quick / 300 thorough, branching through NewManagerFromHandle of earlier handles, started empty or from a parsed keyset with DISABLED/DESTROYED keys). The RNG seam scripts the key-ID draws (live, deleted, burned, 0, 2^32-1) so the collision re-draw loop is exercised on every Add. After every operation the real keyset is compared with a reference model and the stated invariants are enforced: distinct IDs, exactly one ENABLED primary, errors leave the keyset unchanged, primary cannot be disabled/deleted, non-enabled cannot become primary, earlier handles keep their snapshot, ID requirements are kept. Sampling, not proof.",
+   note="Trusts key.Equal of the key types used and the harness model; the property's silent cases (re-adding a deleted fixed ID, Enable of DESTROYED, ops on absent IDs) are allowed either way."),
 }
 
 def main():
@@ -55,6 +59,7 @@ def main():
         "engines": [
             {"name": "vsim", "path": "/verif/tools/vsim", "serves_properties": sorted(CHECKS), "kind_free_text": "orchestrator: builds each world's test binary from /repo's working tree, runs 16 seeded worker processes, merges coverage into evidence, writes replay files"},
             {"name": "stream", "path": "/verif/sim/worlds/stream", "serves_properties": ["C07"], "kind_free_text": "simulated device/medium/source around real streaming AEAD"},
+            {"name": "manager", "path": "/verif/sim/worlds/manager", "serves_properties": ["C11"], "kind_free_text": "operation histories of the real keyset.Manager vs reference model, scripted RNG"},
         ],
         "checks": checks,
         "not_applicable": na,
